@@ -555,6 +555,24 @@ def install(root, mounts, uid, plan, logfd):
     if plan.get('random_seed') is not None:
         import random
         random.seed(plan['random_seed'])
+        # tempfile draws names from its own urandom-seeded generator: make
+        # them a function of the seed too, so that crash/fault enumeration
+        # re-runs see the same paths
+        import tempfile
+
+        class _Names(object):
+            chars = 'abcdefghijklmnopqrstuvwxyz0123456789_'
+
+            def __init__(self, seed):
+                self.r = random.Random(seed)
+
+            def __iter__(self):
+                return self
+
+            def __next__(self):
+                return ''.join(self.r.choice(self.chars) for _ in range(8))
+            next = __next__
+        tempfile._name_sequence = _Names(plan['random_seed'])
     if plan.get('audit', True):
         sys.addaudithook(sh.audit_hook)
     return sh
